@@ -418,6 +418,7 @@ def plan_layout(tier, seed, nshards=64):
         parts.append({"alpha": "v0", "nmax": 4, "nconf": 14})
     else:
         parts.append({"alpha": "v0", "nmax": 5, "nconf": 28})
+        parts.append({"alpha": "v0n6", "nmax": 6, "nmin": 6, "nconf": 8})  # six labels on the two-width alphabet, 8 + 3 configs
         parts.append({"alpha": "v1", "nmax": 4, "nconf": 14})
     parts.append({"alpha": "seed", "nmax": 3, "nconf": 14, "seed": seed})
     parts.append({"alpha": "w4", "nmax": 5 if tier == "quick" else 7, "nconf": 14})  # one width: more labels per input
@@ -427,7 +428,7 @@ def plan_layout(tier, seed, nshards=64):
         parts.append({"alpha": "big", "base": base, "nmax": 3 if tier == "quick" else 4, "nconf": 5})
     shards = [{"kind": "probe"}]
     for p in parts:
-        ns = nshards if p["alpha"] in ("v0", "v1", "w4") else 8
+        ns = 256 if p["alpha"] == "v0n6" else nshards if p["alpha"] in ("v0", "v1", "w4") else 8
         for r in range(ns):
             shards.append({"kind": "multisets", "part": p, "mod": ns, "rem": r})
     if tier == "thorough":
@@ -443,7 +444,7 @@ def plan_layout(tier, seed, nshards=64):
 
 
 def part_alpha(p):
-    if p["alpha"] == "v0":
+    if p["alpha"] in ("v0", "v0n6"):
         return letters("q", 0)
     if p["alpha"] == "v1":
         return letters("t", 1)
@@ -468,7 +469,7 @@ def part_menu(p):
     return CONFIGS
 
 
-PART_ORDER = {"v0": 0, "v1": 1, "seed": 2, "near": 3, "big": 4, "w4": 5, "frac": 6}
+PART_ORDER = {"v0n6": 7, "v0": 0, "v1": 1, "seed": 2, "near": 3, "big": 4, "w4": 5, "frac": 6}
 SWEEP_WIDTHS = {"all4": lambda i: 4, "alt1-7": lambda i: 1 if i % 2 == 0 else 7, "w2.5": lambda i: 2.5}
 WIDE = {"w400": lambda i: 400}  # heavy blocks: the summed displacement against a bound reaches ~1e7
 SWEEP_CONFIGS = [{}, {"minPos": None}, {"maxPos": 300}, "fit-exact"]
@@ -539,7 +540,7 @@ def run_layout_shard(prop, shard):
         menu = part_menu(p)
         nconf = p["nconf"]
         for idx, ms in enumerate(multisets(alpha, p["nmax"])):
-            if idx % shard["mod"] != shard["rem"]:
+            if idx % shard["mod"] != shard["rem"] or len(ms) < p.get("nmin", 0):
                 continue
             labels = [alpha[i] for i in ms]
             acc.states += 1
